@@ -2,6 +2,7 @@ import Nervus.Driver.Util
 import Nervus.Driver.OKey
 import Nervus.Driver.Engine
 import Nervus.Driver.Bulk
+import Nervus.Driver.Cypher14
 open Nervus.Driver
 
 /-- stream registry: one line per stream (kept one-per-line so that merges are unions) -/
@@ -11,7 +12,8 @@ def streams : List (String × Stream) := [
   ("engine_reopen", EngineStream.streamReopen),
   ("engine_compact", EngineStream.streamCompact),
   ("engine_abort", EngineStream.streamAbort),
-  ("bulk", BulkStream.stream)
+  ("bulk", BulkStream.stream),
+  ("cypher14", Cypher14.stream)
 ]
 
 def main (args : List String) : IO UInt32 := do
